@@ -215,7 +215,9 @@ func (w *World) runOp(op Op) {
 			return
 		}
 		p.sb++
-		w.spawn("add:"+p.spec.Name, op.Async, func() { w.cniAdd(p) })
+		sandbox := cid(p)
+		p.sbs = append(p.sbs, sandbox)
+		w.spawn("add:"+p.spec.Name, op.Async, func() { w.cniAdd(p, sandbox) })
 	case "down":
 		if p == nil || !p.exists {
 			return
@@ -249,13 +251,20 @@ func (w *World) runOp(op Op) {
 	}
 }
 
-func (w *World) cniAdd(p *podState) {
+func (w *World) cniAdd(p *podState, sandbox string) {
 	ctx, cancel := context.WithTimeout(w.ctx, 120*time.Second)
 	defer cancel()
 	uid := p.uid
-	req := &rpc.AllocIPRequest{K8SPodName: p.spec.Name, K8SPodNamespace: ns, K8SPodInfraContainerId: cid(p), Netns: "/proc/1/ns/net", IfName: "eth0"}
+	req := &rpc.AllocIPRequest{K8SPodName: p.spec.Name, K8SPodNamespace: ns, K8SPodInfraContainerId: sandbox, Netns: "/proc/1/ns/net", IfName: "eth0"}
 	w.run.S.Log("cni", "ADD invoke %s cid=%s", p.spec.Name, req.K8SPodInfraContainerId)
+	w.cniInFlight[uid]++
 	reply, err := w.svc.AllocIP(ctx, req)
+	w.cniInFlight[uid]--
+	if err != nil || reply == nil || !reply.Success {
+		// a failed ADD is rolled back by the agent itself, which is the teardown of a sandbox that
+		// never came up (the runtime follows with a DEL for it in any case)
+		w.addFailed[uid] = true
+	}
 	v4, v6 := "", ""
 	if reply != nil {
 		for _, nc := range reply.NetConfs {
@@ -270,6 +279,7 @@ func (w *World) cniAdd(p *podState) {
 		return
 	}
 	w.run.Probe("add-ok")
+	w.addOK[uid] = true
 	w.run.Eval()
 	kit.CheckNetConf(w.run, p.spec.Name, reply, w.cfg.v4(), w.cfg.v6())
 	// C02: what the daemon hands to the pod is what the record binds to it
@@ -287,10 +297,24 @@ func (w *World) cniAdd(p *podState) {
 }
 
 // cniDel is the CNI DEL of the plugin: GetIPInfo, teardown, ReleaseIP.
-func (w *World) cniDel(p *podState, uid string) {
-	_, _ = w.svc.GetIPInfo(w.ctx, &rpc.GetInfoRequest{K8SPodName: p.spec.Name, K8SPodNamespace: ns, K8SPodInfraContainerId: cid(p)})
+func (w *World) cniDel(p *podState, uid string, sandboxes []string) {
+	all := true
+	for _, sb := range sandboxes {
+		if err := w.cniDelOne(p, uid, sb); err != nil {
+			all = false
+		}
+	}
+	if all {
+		w.delComplete[uid] = true
+	}
+}
+
+func (w *World) cniDelOne(p *podState, uid, sandbox string) error {
+	_, _ = w.svc.GetIPInfo(w.ctx, &rpc.GetInfoRequest{K8SPodName: p.spec.Name, K8SPodNamespace: ns, K8SPodInfraContainerId: sandbox})
 	w.run.S.Log("cni", "DEL invoke %s uid=%s", p.spec.Name, uid)
-	_, err := w.svc.ReleaseIP(w.ctx, &rpc.ReleaseIPRequest{K8SPodName: p.spec.Name, K8SPodNamespace: ns, K8SPodInfraContainerId: cid(p)})
+	w.cniInFlight[uid]++
+	_, err := w.svc.ReleaseIP(w.ctx, &rpc.ReleaseIPRequest{K8SPodName: p.spec.Name, K8SPodNamespace: ns, K8SPodInfraContainerId: sandbox})
+	w.cniInFlight[uid]--
 	w.run.S.Log("cni", "DEL return %s err=%v", p.spec.Name, err)
 	if !isProcessing(err) {
 		// the daemon may have recorded the teardown from the moment the request passed its gate
@@ -300,28 +324,36 @@ func (w *World) cniDel(p *podState, uid string) {
 		w.run.Probe("del-ok")
 		p.delDone = time.Now()
 	}
+	return err
 }
 
 func (w *World) podDown(p *podState, order string) {
-	uid := p.uid
+	// the runtime tears down every sandbox it created for the pod; each DEL names its sandbox,
+	// whatever happens to the pod's name meanwhile
+	uid, sandbox := p.uid, append([]string{}, p.sbs...)
+	if len(sandbox) == 0 {
+		sandbox = []string{cid(p)}
+	}
 	p.sbLive = false
 	// kubelet stops the containers: the pod object shows it (an update event)
-	w.setPodStatus(p, corev1.PodRunning, p.v4, p.v6)
+	if !p.exited { // a pod whose containers have exited stays Succeeded
+		w.setPodStatus(p, corev1.PodRunning, p.v4, p.v6)
+	}
 	switch order {
 	case "obj-del":
 		w.deletePod(p)
 		simrt.Sleep(time.Duration(w.pick(5, "down-gap")) * time.Second)
-		w.cniDel(p, uid)
+		w.cniDel(p, uid, sandbox)
 	case "obj-only":
 		w.run.Probe("del-never-delivered")
 		w.deletePod(p)
 	case "del-only":
-		w.cniDel(p, uid)
+		w.cniDel(p, uid, sandbox)
 		w.setPodStatus(p, corev1.PodSucceeded, "", "")
 		p.exited = true
 		w.notify()
 	default:
-		w.cniDel(p, uid)
+		w.cniDel(p, uid, sandbox)
 		simrt.Sleep(time.Duration(w.pick(5, "down-gap")) * time.Second)
 		w.deletePod(p)
 	}
@@ -521,17 +553,27 @@ func sortedIPs(m map[string]ipRec) []string {
 func (w *World) teardownConfirmed(podID, uid string) (bool, string) {
 	name := strings.TrimPrefix(podID, ns+"/")
 	if pod := w.truthPod(name); pod != nil && !utils.PodSandboxExited(pod) && (uid == "" || string(pod.UID) == uid) && pod.Spec.NodeName == nodeName {
-		return false, "the pod still exists"
+		// a binding without uid (taken over from a previous version) names the pod only: it
+		// belongs to the pod that has been there all along, not to a namesake created while this
+		// pass was under way (the pass listed the pods when it began)
+		if uid != "" || w.passStartUID[name] == string(pod.UID) {
+			return false, "the pod still exists"
+		}
 	}
 	if uid == "" {
 		return true, ""
 	}
-	rt := w.truthRuntime()
-	if rt == nil || rt.Status.Pods[uid] == nil {
+	// What counts is what the agent has reported so far, not what the runtime object holds right
+	// now: its two writers (the 3 s flush / 5 min sync-back and the collection) each write back
+	// the whole status they read, so a report can be overwritten by a stale copy after the
+	// control plane has seen it. The harness keeps the newest stamp of each kind per uid and reads
+	// "latest timestamp wins" itself; with equal stamps (one-second resolution) the
+	// implementation's answer follows map order and either is accepted.
+	seen, ok := w.rtSeen[uid]
+	if !ok {
 		return false, "no teardown report for it"
 	}
-	st, _, ok := utils.RuntimeFinalStatus(rt.Status.Pods[uid].Status)
-	if !ok || st != networkv1beta1.CNIStatusDeleted {
+	if seen.del.IsZero() || seen.del.Before(seen.ini) {
 		return false, "its teardown is not reported"
 	}
 	return true, ""
@@ -558,6 +600,15 @@ func (w *World) onAPIWrite(op string, obj client.Object) {
 		_ = o
 		w.checkRuntimeWrite()
 	}
+}
+
+func (w *World) uidBound(uid string) bool {
+	for _, r := range flatten(w.truthNode()) {
+		if r.ip.PodUID == uid {
+			return true
+		}
+	}
+	return false
 }
 
 func (w *World) podByID(podID string) *podState {
@@ -656,9 +707,17 @@ func (w *World) checkNodeStatus(cur *networkv1beta1.Node) {
 		}
 	}
 	// ---- C03: nothing bound is taken away before the pod is gone and its teardown reported
+	// (cloud drift is outside what C03 ranges over: when the cloud lost one of a pod's addresses,
+	// the record follows, and in dual stack the pod's other address goes with it)
+	drifted := map[string]bool{}
+	for ip, pr := range prev {
+		if pr.ip.PodID != "" && !w.cloud.hasIP(ip) {
+			drifted[pr.ip.PodID] = true
+		}
+	}
 	for _, ip := range sortedIPs(prev) {
 		pr := prev[ip]
-		if pr.ip.PodID == "" {
+		if pr.ip.PodID == "" || drifted[pr.ip.PodID] {
 			continue
 		}
 		nr, still := now[ip]
@@ -756,12 +815,55 @@ func (w *World) checkRuntimeWrite() {
 		uids = append(uids, u)
 	}
 	sort.Strings(uids)
+	var b strings.Builder
+	for _, uid := range uids {
+		st := rt.Status.Pods[uid]
+		if st == nil {
+			continue
+		}
+		seen := w.rtSeen[uid]
+		seen.present = true
+		if v := st.Status[networkv1beta1.CNIStatusInitial]; v != nil && v.LastUpdateTime.Time.After(seen.ini) {
+			seen.ini = v.LastUpdateTime.Time
+		}
+		if v := st.Status[networkv1beta1.CNIStatusDeleted]; v != nil && v.LastUpdateTime.Time.After(seen.del) {
+			seen.del = v.LastUpdateTime.Time
+		}
+		w.rtSeen[uid] = seen
+		fmt.Fprintf(&b, "%s[%s", uid, st.PodID)
+		for _, k := range []networkv1beta1.CNIStatus{networkv1beta1.CNIStatusInitial, networkv1beta1.CNIStatusDeleted} {
+			if v := st.Status[k]; v != nil {
+				fmt.Fprintf(&b, " %s@%s", k, v.LastUpdateTime.Format("15:04:05"))
+			}
+		}
+		b.WriteString("] ")
+	}
+	simrt.Log("runtime", "%s", b.String())
+	// a write that drops an entry whose address is still bound, or drops a stamp, is one writer
+	// undoing the other with a stale copy: the reclaim is put off by a collection period
+	for uid, seen := range w.rtSeen {
+		st := rt.Status.Pods[uid]
+		lost := false
+		switch {
+		case st == nil:
+			lost = seen.present && w.uidBound(uid)
+			seen.present = false
+		case !seen.del.IsZero() && st.Status[networkv1beta1.CNIStatusDeleted] == nil:
+			lost = !seen.delLost
+			seen.delLost = true
+		}
+		if lost {
+			seen.lost++
+			w.run.Probe("runtime-object-stale-overwrite")
+		}
+		w.rtSeen[uid] = seen
+	}
 	for _, uid := range uids {
 		st := rt.Status.Pods[uid]
 		if st == nil || st.Status[networkv1beta1.CNIStatusDeleted] == nil {
 			continue
 		}
-		if w.delProcessed[uid] {
+		if w.delProcessed[uid] || w.addFailed[uid] || w.cniInFlight[uid] > 0 {
 			continue
 		}
 		name := strings.TrimPrefix(st.PodID, ns+"/")
